@@ -635,3 +635,34 @@ func checkNoSleep(c *Ctx) {
 	}
 	c.check(n > 100, rule, "repository/functions-scanned", "-", fmt.Sprintf("%d functions scanned, no time.Sleep", n), "too few functions scanned")
 }
+
+// checkCtorCompletes: once builder.Create has started any child (a constructor that starts
+// goroutines), every way out starts the controller's own goroutines: the children only stop
+// through the controller's lifecycle, which only controller.run ever completes — an early error
+// return after the children exist leaks them for good.
+func checkCtorCompletes(c *Ctx) {
+	rule := "T-GO(ctor-completes)"
+	fn := c.mustFunc("", "builder.Create")
+	if fn == nil {
+		return
+	}
+	ok, detail, n := true, "", 0
+	for _, pa := range pathsOf(c, fn) {
+		started, ran := "", false
+		for _, e := range pa.Effects {
+			if e.Kind == "call" && e.Fn != nil && e.Fn.Blocks != nil && e.Fn.Pkg == fn.Pkg && hasGo(e.Fn) && started == "" {
+				started = fnName(e.Fn)
+			}
+			if e.Kind == "go" && e.Fn != nil && fnName(e.Fn) == "controller.run" {
+				ran = true
+			}
+		}
+		if started != "" {
+			n++
+			if !ran {
+				ok, detail = false, "a path returns after "+started+"(…) started its goroutines without starting controller.run"
+			}
+		}
+	}
+	c.check(ok && n > 0, rule, "builder.Create/children-started-implies-run-started", c.P.fnPos(fn), "", "builder.Create: "+detail+": the children (cache, lister, watcher, root subscription, publisher) wait for a shutdown that can then never be initiated")
+}
